@@ -144,7 +144,7 @@ PROPS = {
         state_measure="distinct (scenario, size of the model collection, auto-variables flag, operation) tuples",
         fault_kinds=[],
         probes=["getall_mutated", "case_insensitive_hit", "first_added_wins_checked", "auto_variables_applied", "default_variable_removed",
-                "var_not_found_named", "func_not_found_named", "default_function_wins_checked", "custom_function_resolved", "second_calculator_called", "calculator_cleared", "function_removed_by_index"],
+                "var_not_found_named", "func_not_found_named", "default_function_wins_checked", "custom_function_resolved", "second_calculator_called", "calculator_cleared", "function_removed_by_index", "value_object_changed_in_place"],
         real=["variables.VariableCollection", "functions.FunctionCollection", "ExpressionCalculator", "ExpressionParser", "MustacheTemplate", "MustacheParser"],
         stub=["recordingCollection (a VariableCollection whose FindByName finds nothing, to read the calculator's discovered names in order)"],
         assumptions=["discovery is checked only for generated inputs whose identifier roles are known to the generator",
